@@ -263,4 +263,44 @@ def applyChange (m : Content) : Act → Content
 
 def spec (c0 : Content) (acts : List Act) : Content := acts.foldl applyChange c0
 
+/-! ### the editor's use of the dictionary (`src/editor/mod.rs`)
+
+`learn_phrase` adds the phrase (no other phrase known for the syllables; `dirty_level` untouched) or
+updates it (`dirty_level += 1`), `unlearn_phrase` removes it (`dirty_level += 1`); the tail of
+`process_keyevent` calls `reopen(); flush()` and resets `dirty_level` when it is positive. -/
+
+structure EdWorld where
+  w : World
+  /-- `SharedState::dirty_level` -/
+  dirtyLevel : Nat
+
+inductive EdAct where
+  /-- `learn_phrase`; `known` = some dictionary already has a phrase for these syllables -/
+  | learn (k : Key) (v : Val) (known : Bool)
+  | unlearn (k : Key)
+  /-- the tail of `process_keyevent` -/
+  | key
+  /-- everything the editor does not decide: dropping it (close, parts of `Drop`), the writer, a crash -/
+  | env (a : Act)
+
+/-- the dictionary calls an editor action makes, and the new `dirty_level` -/
+def edExpand (dl : Nat) : EdAct → List Act × Nat
+  | .learn k v true => ([.update k v], dl + 1)
+  | .learn k v false => ([.add k v], dl)
+  | .unlearn k => ([.remove k], dl + 1)
+  | .key => if dl > 0 then ([.reopen, .flush], 0) else ([], dl)
+  | .env a => ([a], dl)
+
+def edStep (cfg : Cfg) (e : EdWorld) (a : EdAct) : Option EdWorld :=
+  match run cfg e.w (edExpand e.dirtyLevel a).1 with
+  | some w' => some { w := w', dirtyLevel := (edExpand e.dirtyLevel a).2 }
+  | none => none
+
+def edRun (cfg : Cfg) (e : EdWorld) : List EdAct → Option EdWorld
+  | [] => some e
+  | a :: as =>
+    match edStep cfg e a with
+    | some e' => edRun cfg e' as
+    | none => none
+
 end Chewing.Persist
